@@ -506,6 +506,9 @@ PLAN["C01"] = {
     "verus": [dict(STACK, functions=["fill_thread_stack", "memory_list_stream_write", "exception_stream_write"], tags=["C01"]),
               {"unit": "dir_section", "functions": ["new", "dump_dir_entry", "write_to_file"], "tags": ["C01"], "tiers": Q},
               {"unit": "app_memory", "functions": ["app_memory_write"], "tags": ["C01"], "tiers": Q}, LOOKUPS("C01"), TLIST("C01"),
+              # "no two objects overlap ... every memory descriptor designates an object inside the image" needs the memory list
+              # of a request to hold only regions recorded by THAT request: the fresh-request-state obligation of dump() ([C19])
+              {"unit": "dump", "functions": ["dump"], "tags": ["C01", "C19"], "tiers": Q},
               {"unit": "mem_writer", "functions": None, "tags": ["C16"], "tiers": Q}],
     "kani": [{"tiers": Q, "jobs": 6, "timeout": 1500, "harnesses": dict(K_THREAD_NAMES, **dict(K_ARRAYS, **{"vk_app_memory_two_regions": H("B", "app_memory::write", "2 requests"),
                                                                                                               "vk_stream_types_distinct": H("C", "the 18 stream types generate_dump emits are pairwise distinct and non-zero")}))},
